@@ -1,7 +1,7 @@
 /-
   Hand model (H) for C06 of utils/intersectionsmixin.py `_curve_curve_intersections_t`: the recursive halving of
   both curves with bounding-box pruning, the stop rule (both boxes have area < 1e-3 → report the two range
-  midpoints) and the duplicate filter keyed on the first parameter printed with two decimals, applied at every
+  midpoints) and the duplicate filter keyed on both parameters printed with two decimals, applied at every
   level of the recursion; and of booleanoperationsmixin.py `getSelfIntersections` (loop test + pairwise
   intersections with the 1e-2 window on t1).
 
@@ -23,14 +23,17 @@ structure Env (K Cv Pt Bx : Type) where
   inBox   : Pt → Bx → Prop
   overlap : Bx → Bx → Bool
   small   : Bx → Bool
-  key     : K → Int            -- the `"%.2f" % t1` bucket
+  key     : K → Int            -- the `"%.2f" % t` bucket
 
 variable {K Cv Pt Bx : Type}
 
-/-- `filter(filterSeen, found)`: keep the first report of every key (keys of the first parameter) -/
-def dedupe (key : K → Int) : List (K × K) → List Int → List (K × K)
+/-- the filter's key of a report: the two-decimal buckets of BOTH parameters (the pinned code used the first parameter only: F25) -/
+def pkey (key : K → Int) (p : K × K) : Int × Int := (key p.1, key p.2)
+
+/-- `filter(filterSeen, found)`: keep the first report of every key -/
+def dedupe (key : K → Int) : List (K × K) → List (Int × Int) → List (K × K)
   | [], _ => []
-  | p :: rest, seen => if key p.1 ∈ seen then dedupe key rest seen else p :: dedupe key rest (key p.1 :: seen)
+  | p :: rest, seen => if pkey key p ∈ seen then dedupe key rest seen else p :: dedupe key rest (pkey key p :: seen)
 
 variable [Field K] [LinearOrder K]
 
